@@ -36,6 +36,7 @@ def _strip(t):
 
 def run(fb, rep, tier):
     c1_encoding(fb, rep, 'C04.1')
+    c2_unproven_mates(fb, rep, 'C04.2')
 
 
 def encoders(fb, rep, clause):
@@ -243,3 +244,116 @@ def c1_encoding(fb, rep, clause):
                                               (v.get('n') == 'plyToMate' and 'MATE0' in show(v.get('init')) and 'abs' in show(v.get('init'))) for v in e.get('vars', []))
                  for _, _, e in it.events())
         rep.ob(clause, 'K10 decoder', 'iterativeDeepening stops deepening when the depth covers the plies to mate (MATE0 - |score|)', ok, it.where, '', it.sname)
+
+
+# --------------------------------------------------------------------------- .2 unproven mate scores
+
+def c2_unproven_mates(fb, rep, clause):
+    """K15 provenance / K3 typestate: a score obtained by searching after a null move (the side to move was
+    flipped without a move being made) is not the score of a legal continuation.  Such a value may leave
+    negaScout - through logAndReturn, a plain return, the hash table or the search-tree info - only after it
+    was shown not to be a win score or replaced by a non-win bound."""
+    from ..flow import Flow
+    fs = [f for f in fb.find('Search::negaScout') if f.d.get('targs') in (['true'], ['false'])]
+    if len(fs) != 2:
+        rep.broken(clause, 'expected two instantiations of Search::negaScout, found %d' % len(fs))
+        return
+    n_src = n_sink = 0
+    for f in sorted(fs, key=lambda x: x.key):
+        tag = 'negaScout<%s>' % f.d['targs'][0]
+        viol = {}
+        sources = set()
+        sinks = set()
+
+        def mentions(t, ids):
+            return any(n.get('k') == 'var' and n.get('id') in ids for n in walk(t))
+
+        def is_flip(e):
+            if e.get('k') != 'call' or cname(e) != 'Position::setWhiteMove':
+                return False
+            a = _strip(e['args'][0]) if e.get('args') else None
+            return isinstance(a, dict) and a.get('k') == 'un' and a.get('op') == '!' and any(n.get('k') == 'call' and cname(n) == 'Position::isWhiteMove' for n in walk(a))
+
+        def searches(t):
+            return any(n.get('k') == 'call' and cname(n) in ('Search::negaScout', 'Search::quiesce') for n in walk(t))
+
+        def assign(cfg, vid, rhs, pos):
+            flipped, tainted, nonwin = cfg
+            tainted = set(tainted)
+            nonwin = set(nonwin)
+            nonwin.discard(vid)
+            if rhs is not None and searches(rhs) and flipped:
+                tainted.add(vid)
+                sources.add(pos)
+            elif rhs is not None and mentions(rhs, tainted):
+                r = _strip(rhs)
+                bounded = False
+                if isinstance(r, dict) and r.get('k') == 'call' and cname(r) == 'std::min' and len(r.get('args', [])) == 2:
+                    for a in r['args']:
+                        a = _strip(a)
+                        if isinstance(a, dict) and a.get('k') == 'var' and a.get('id') in nonwin:
+                            bounded = True
+                if bounded:
+                    tainted.discard(vid)
+                    nonwin.add(vid)
+                else:
+                    tainted.add(vid)
+            else:
+                tainted.discard(vid)
+                r = _strip(rhs) if rhs is not None else None
+                if isinstance(r, dict) and r.get('k') == 'var' and r.get('id') in nonwin:
+                    nonwin.add(vid)
+            return (flipped, frozenset(tainted), frozenset(nonwin))
+
+        def transfer(e, cfg, pos):
+            flipped, tainted, nonwin = cfg
+            k = e.get('k')
+            if is_flip(e):
+                return [(not flipped, tainted, nonwin)]
+            if k == 'decl':
+                for v in e.get('vars', []):
+                    cfg = assign(cfg, v['id'], v.get('init'), pos)
+                return [cfg]
+            if k == 'asg':
+                l = e.get('l')
+                if isinstance(l, dict) and l.get('k') == 'var' and 'id' in l:
+                    rhs = e.get('r') if e.get('op') == '=' else {'k': 'bin', 'op': e['op'][:-1], 'l': l, 'r': e.get('r')}
+                    return [assign(cfg, l['id'], rhs, pos)]
+                if tainted and mentions(e.get('r'), tainted):
+                    viol[pos] = ('stored into %s' % show(l), e)
+                return [cfg]
+            if k == 'ret' and e.get('e') is not None and tainted:
+                inner = _strip(e['e'])
+                if not (isinstance(inner, dict) and inner.get('k') == 'call') and mentions(e['e'], tainted):
+                    viol[pos] = ('returned', e)
+                return [cfg]
+            if k == 'call':
+                n = cname(e)
+                is_sink = n.endswith('::operator()') and (e.get('recv') or {}).get('n') == 'logAndReturn' or n in ('Move::setScore', 'TranspositionTable::insert')
+                if is_sink:
+                    sinks.add(pos)
+                    if tainted and any(mentions(a, tainted) for a in e.get('args', [])):
+                        viol[pos] = ('passed to %s' % n.split('::')[-1].replace('operator()', 'logAndReturn'), e)
+            return [cfg]
+
+        def refine(atom, tv, cfg):
+            flipped, tainted, nonwin = cfg
+            a = _strip(atom)
+            if isinstance(a, dict) and a.get('k') == 'call' and cname(a) in ('SearchConst::isWinScore', 'isWinScore') and a.get('args'):
+                v = _strip(a['args'][0])
+                if isinstance(v, dict) and v.get('k') == 'var' and 'id' in v and not tv:
+                    return [(flipped, frozenset(set(tainted) - {v['id']}), frozenset(set(nonwin) | {v['id']}))]
+            return [cfg]
+        fl = Flow(f, transfer, refine, max_configs=512).run({(False, frozenset(), frozenset())})
+        if fl.overflow:
+            rep.broken(clause, tag + ': configuration overflow')
+            continue
+        n_src += len(sources)
+        n_sink += len(sinks)
+        rep.ob(clause, 'K3 typestate', '%s: a score found by searching after a null move leaves the node only after it is known not to be a win score' % tag, not viol,
+               R.site(f, sorted(viol.items())[0][1][1]) if viol else f.where,
+               '; '.join('line %s: %s' % (e.get('ln'), w) for _, (w, e) in sorted(viol.items())) if viol else '%d null-move search result(s), %d score sinks' % (len(sources), len(sinks)), f.sname)
+        unbalanced = [c for c in fl.at_exit if c[0]]
+        rep.ob(clause, 'K1 pairing', '%s: the side to move is flipped back on every path to the exit' % tag, not unbalanced, f.where, '', f.sname)
+    rep.floor(clause, 'null-move search results', n_src, 2)
+    rep.floor(clause, 'score sinks in negaScout', n_sink, 40)
